@@ -51,6 +51,7 @@ type caseResult struct {
 	nontrivial int
 	sample     string
 	leftLock   int
+	faultCases int
 }
 
 func hsOf(cfg reftable.Config) int { return stk.HashSize(cfg) }
@@ -194,7 +195,9 @@ func runKind(v victim, init string, cfg reftable.Config, quick bool) (*caseResul
 	beforeC := before.CanonString(hs)
 	label := fmt.Sprintf("%s/%s/%s", v.Kind, init, stk.HashName(cfg))
 
-	oneCase := func(k int, operator bool) (n int, err error) {
+	// oneCase: the victim's j-th filesystem call fails with EIO (j=0: none) and the victim is killed
+	// immediately before its k-th call (k=0: never).
+	oneCase := func(k int, operator bool, j int) (n int, err error) {
 		w := mc.NewWorld(stk.Dir)
 		w.Restore(snap)
 		rt.E = w
@@ -219,6 +222,8 @@ func runKind(v victim, init string, cfg reftable.Config, quick bool) (*caseResul
 		}
 		vp.OpCount = 0
 		vp.CrashAt = k
+		vp.FaultAt = j
+		vp.Faults = 0
 		var res string
 		// the expected state after the operation comes from the model alone, before the call runs
 		afterDB := planAfter(st, v.Kind, cfg, before)
@@ -247,9 +252,17 @@ func runKind(v victim, init string, cfg reftable.Config, quick bool) (*caseResul
 				tr[i] = e.String()
 			}
 			cr.violations = append(cr.violations, report.V{Property: "C06", Signature: sig, Msg: msg, Count: 1,
-				Replay: map[string]interface{}{"harness": "crashseq", "victim": v.Kind, "initial": init, "hash": stk.HashName(cfg), "crash_before_vfs_call": k, "victim_calls_total": n, "trace": tr, "message": msg}})
+				Replay: map[string]interface{}{"harness": "crashseq", "victim": v.Kind, "initial": init, "hash": stk.HashName(cfg), "crash_before_vfs_call": k, "failing_vfs_call": j, "victim_calls_total": n, "trace": tr, "message": msg}})
 		}
-		if !crashed && res != "ok" {
+		faulted := vp.Faults > 0
+		if j > 0 && !faulted {
+			return n, nil // the j-th call cannot fail (removal, close of a read-only descriptor) or was never reached
+		}
+		vp.FaultAt = 0
+		if strings.HasPrefix(res, "PANIC") {
+			vio("crash:victim-panics@"+v.Kind, fmt.Sprintf("%s: victim call panicked (failing call %d): %s", label, j, res))
+		}
+		if !crashed && res != "ok" && !faulted {
 			vio("crash:victim-fails-alone@"+v.Kind, fmt.Sprintf("%s: victim call failed without any crash: %s", label, res))
 		}
 		// survivor program
@@ -401,9 +414,12 @@ func runKind(v victim, init string, cfg reftable.Config, quick bool) (*caseResul
 		if w.HarnessErr != nil {
 			return n, w.HarnessErr
 		}
-		if crashed {
+		if faulted {
+			cr.faultCases++
+		}
+		if crashed || faulted {
 			cr.nontrivial++
-			if cr.sample == "" && k >= (cr.n+1)/2 && !operator {
+			if cr.sample == "" && crashed && k >= (cr.n+1)/2 && !operator {
 				cr.sample = fmt.Sprintf("%s: victim killed before its vfs call %d; directory then %v; survivor saw %s, its Add: %s", label, k, w.Names(), map[bool]string{true: "AFTER", false: "BEFORE"}[pinned == afterC && beforeC != afterC], sRes)
 			}
 		}
@@ -411,14 +427,34 @@ func runKind(v victim, init string, cfg reftable.Config, quick bool) (*caseResul
 		return n, nil
 	}
 	// k = 0 means no crash: the call completes (also gives n)
-	n, err := oneCase(0, false)
+	n, err := oneCase(0, false, 0)
 	if err != nil {
 		return nil, err
 	}
 	cr.n = n
 	for k := 1; k <= n; k++ {
 		for _, operator := range []bool{false, true} {
-			if _, err := oneCase(k, operator); err != nil {
+			if _, err := oneCase(k, operator, 0); err != nil {
+				return nil, err
+			}
+		}
+	}
+	// one failing filesystem call: the victim's j-th call returns EIO and the victim carries on (its error
+	// path is part of the operation); it then finishes (k=0) or is killed before a later call k>j
+	// (quick: only the call right after the failing one and the last one)
+	for j := 1; j <= n+8; j++ {
+		nj, err := oneCase(0, false, j)
+		if err != nil {
+			return nil, err
+		}
+		if j > nj {
+			break
+		}
+		for k := j + 1; k <= nj; k++ {
+			if quick && k != j+1 && k != nj {
+				continue
+			}
+			if _, err := oneCase(k, false, j); err != nil {
 				return nil, err
 			}
 		}
@@ -514,7 +550,7 @@ func main() {
 				nontrivial += cr.nontrivial
 				points += cr.n
 				run.Violations = append(run.Violations, cr.violations...)
-				perKind = append(perKind, map[string]interface{}{"victim": v.Kind, "initial": init, "hash": stk.HashName(cfg), "vfs_calls_of_the_call": cr.n, "crash_points_enumerated": cr.n, "cases": cr.cases, "crashes_leaving_list_lock": cr.leftLock})
+				perKind = append(perKind, map[string]interface{}{"victim": v.Kind, "initial": init, "hash": stk.HashName(cfg), "vfs_calls_of_the_call": cr.n, "crash_points_enumerated": cr.n, "cases": cr.cases, "cases_with_a_failing_call": cr.faultCases, "crashes_leaving_list_lock": cr.leftLock})
 				if cr.sample != "" && len(samples) < 8 {
 					samples = append(samples, cr.sample)
 				}
@@ -535,7 +571,7 @@ func main() {
 	cov := run.Coverage
 	cov["evaluations"] = total
 	cov["distinct_nontrivial"] = nontrivial
-	cov["rule"] = "one case = (victim call kind, initial stack, hash type, k): the victim runs alone on the real code and is killed immediately before its k-th filesystem call (every k from 1 to n, counting descriptor writes and closes too; k=0 lets it finish); then, once as is and once after an operator removed the leftover *.lock files, a survivor process opens, scans, adds, scans, compacts, scans, cleans, closes, reopens and scans. Non-trivial = the victim really died mid-call (k>=1); all cases are distinct tuples"
+	cov["rule"] = "one case = (victim call kind, initial stack, hash type, k): the victim runs alone on the real code and is killed immediately before its k-th filesystem call (every k from 1 to n, counting descriptor writes and closes too; k=0 lets it finish); then, once as is and once after an operator removed the leftover *.lock files, a survivor process opens, scans, adds, scans, compacts, scans, cleans, closes, reopens and scans. In addition one filesystem call of the victim fails: for every j the victim's j-th call returns EIO (writes, reads, opens, renames, closes of written descriptors; not removals), the victim runs on through its error path and either finishes or is killed before a later call k (thorough: every k>j; quick: k=j+1 and the last call), followed by the same survivor program; a failed operation must leave the state before or the state after, a successful one the state after. Non-trivial = the victim really died mid-call or a call really failed; all cases are distinct tuples"
 	cov["samples"] = samples
 	cov["exhaustive"] = true
 	cov["crash_points_total"] = points
